@@ -427,6 +427,80 @@ fn run_case(c: &Value, rng: &mut StdRng, rep: &mut Report) {
             cmp.eq("build_string", mi.raw.build_string().map(|b| b[0]), if fields.contains(&"build") { Some(0x41) } else { None });
             cmp.eq("process_cookie", mi.raw.process_cookie().copied(), if fields.contains(&"xstate") { Some(77) } else { None });
         }
+        "crashpad" => {
+            let nmods = m["mods"].as_u64().unwrap() as usize;
+            let kinds: Vec<String> = m["objs"].as_array().unwrap().iter().map(|x| x.as_str().unwrap().to_string()).collect();
+            let tag: u32 = rng.gen();
+            let mut cp = synth::CrashpadInfo::new(endian);
+            for k in 0..m["simple"].as_u64().unwrap() { cp = cp.add_simple_annotation(&format!("sk{}", k), &format!("sv{}-{:08x}", k, tag)); }
+            let mut unterminated: Vec<String> = vec![];
+            for mi in 0..nmods {
+                let mut module = synth::ModuleCrashpadInfo::new(mi as u32, endian);
+                for k in 0..m["list"].as_u64().unwrap() { module = module.add_list_annotation(&format!("list{}-{}-{:08x}", mi, k, tag)); }
+                for (k, kind) in kinds.iter().enumerate() {
+                    let val = format!("value-{}-{}-{:08x}", mi, k, tag);
+                    let v = match kind.as_str() {
+                        "str" => synth::AnnotationValue::String(val),
+                        "str_unterminated" => { unterminated.push(val.clone()); synth::AnnotationValue::String(val) }
+                        "invalid" => synth::AnnotationValue::Invalid,
+                        "user" => synth::AnnotationValue::Custom(0x8000 + k as u16, val.into_bytes()),
+                        _ => synth::AnnotationValue::Custom(5, val.into_bytes()),
+                    };
+                    module = module.add_annotation_object(&format!("obj{}", k), v);
+                }
+                cp = cp.add_module(module);
+            }
+            let mut bytes = synth::SynthMinidump::with_endian(endian).add_crashpad_info(cp).finish().unwrap();
+            for v in &unterminated {
+                let at = bytes.windows(v.len()).position(|w| w == v.as_bytes()).expect("value bytes");
+                assert_eq!(bytes[at + v.len()], 0);
+                bytes[at + v.len()] = b'X';
+            }
+            let dump = Minidump::read(&bytes[..]).expect("read");
+            let info = match dump.get_stream::<MinidumpCrashpadInfo>() { Ok(i) => i, Err(e) => { cmp.eq("crashpad info stream", format!("{:?}", e), "Ok".to_string()); return; } };
+            cmp.eq("simple annotations", info.simple_annotations.iter().map(|(k, v)| (k.clone(), v.clone())).collect::<Vec<_>>(),
+                   (0..m["simple"].as_u64().unwrap()).map(|k| (format!("sk{}", k), format!("sv{}-{:08x}", k, tag))).collect::<Vec<_>>());
+            cmp.eq("module count", info.module_list.len(), nmods);
+            for (mi, md_) in info.module_list.iter().enumerate() {
+                cmp.eq("module index", md_.module_index, mi);
+                cmp.eq("list annotations", md_.list_annotations.clone(), (0..m["list"].as_u64().unwrap()).map(|k| format!("list{}-{}-{:08x}", mi, k, tag)).collect::<Vec<_>>());
+                cmp.eq("annotation object count", md_.annotation_objects.len(), kinds.len());
+                for (k, want) in c["ann"].as_array().unwrap().iter().enumerate() {
+                    let got = md_.annotation_objects.get(&format!("obj{}", k));
+                    let val = format!("value-{}-{}-{:08x}", mi, k, tag);
+                    let shown = match got {
+                        None => "missing".to_string(),
+                        Some(MinidumpAnnotation::Invalid) => "invalid".to_string(),
+                        Some(MinidumpAnnotation::String(s)) => if *s == val { "string".to_string() } else { format!("string:{}", s) },
+                        Some(MinidumpAnnotation::UserDefined(r)) => if r.ty == 0x8000 + k as u16 { "user_defined".to_string() } else { format!("user_defined:{:#x}", r.ty) },
+                        Some(MinidumpAnnotation::Unsupported(r)) => if r.ty == 5 { "unsupported".to_string() } else { format!("unsupported:{:#x}", r.ty) },
+                        #[allow(unreachable_patterns)]
+                        Some(_) => "other".to_string(),
+                    };
+                    cmp.eq(&format!("annotation object[{}]", k), shown, want.as_str().unwrap().to_string());
+                }
+            }
+        }
+        "sysinfo" => {
+            let cpu = m["cpu"].as_str().unwrap();
+            let vendor = m["vendor"].as_str().unwrap();
+            let (level, rev): (u16, u16) = if m["rev"] == "r0" { (6, 0x0000) } else { (23, 0x7104) };
+            let mut si = synth::SystemInfo::new(endian);
+            si.processor_architecture = match cpu { "x86" => 0, "amd64" => 9, _ => 12 };
+            si.processor_level = level;
+            si.processor_revision = rev;
+            si.platform_id = 2;
+            let vb = vendor.as_bytes();
+            let word = |i: usize| u32::from_le_bytes([vb[4 * i], vb[4 * i + 1], vb[4 * i + 2], vb[4 * i + 3]]);
+            si.cpu = synth::CpuInfo::X86CpuInfo { vendor_id: [word(0), word(1), word(2)], version_information: 0x000306c3, feature_information: 0xbfebfbff, amd_extended_cpu_features: 0 };
+            let bytes = synth::SynthMinidump::with_endian(endian).add_system_info(si).finish().unwrap();
+            let dump = Minidump::read(&bytes[..]).expect("read");
+            let got = dump.get_stream::<MinidumpSystemInfo>().expect("system info");
+            let fms = format!("family {} model {} stepping {}", level, (rev >> 8) & 0xff, rev & 0xff);
+            let want = match c["cpuinfo"].as_str().unwrap() { "vendor_family_model_stepping" => Some(format!("{} {}", vendor, fms)), "family_model_stepping" => Some(fms), _ => None };
+            if want.is_some() { cmp.eq("cpu_info", got.cpu_info().map(|x| x.to_string()), want); }
+            cmp.eq("processor level / revision", (got.raw.processor_level, got.raw.processor_revision), (level, rev));
+        }
         f => panic!("unknown facet {}", f),
     }
 }
